@@ -581,6 +581,10 @@ package plenccodec
 //@   ensures[C04,C05] err == nil ==> 0 <= n && n <= len(data)
 //@   ensures[C16] err == nil ==> n == len(data)      # an entry is consumed to its end
 //@   ensures[C16] err == nil ==> loopdone_1 || len(data) == 0
+//@   # acceptance: the reader makes an error of its own only for a tag or length that cannot be read, a length that
+//@   # overruns the entry, or an unknown type marker. Everything else - in particular any text of a json.Number, any
+//@   # string - is handed on as it is (the other errors are those of the element readers)
+//@   atcall fmt.Errorf [C16] call_ReadTag_r2 <= 0 || (called_ReadVarUint && (call_ReadVarUint_r1 <= 0 || call_ReadVarUint_r0 > uint64(len(data) - offset - call_ReadVarUint_r1))) || (index == 3 && (jType > 7 || jType == 0))
 
 //@ func plenccodec.*Descriptor.Read
 //@   safety C04 C13
@@ -698,6 +702,9 @@ package plenccodec
 //@   loop 1 step[C16,C13] head_seenValue ==> seenValue
 //@   ensures[C16,C13] err == nil && loopdone_1 && !exit_seenValue ==> called_Outputter_Raw && bytes(call_Outputter_Raw_arg1) == "null"
 //@   ensures[C16,C13] err == nil ==> loopdone_1
+//@   # acceptance, as for readJSONKV: the walker's own errors are unreadable tags and lengths, overrunning lengths and
+//@   # unknown type markers and unknown field indexes only
+//@   atcall fmt.Errorf [C16,C13] call_ReadTag_r2 <= 0 || (called_ReadVarUint && (call_ReadVarUint_r1 <= 0 || call_ReadVarUint_r0 > uint64(len(data) - offset - call_ReadVarUint_r1))) || (index == 3 && (jType > 7 || jType == 0)) || index < 1 || index > 3
 
 // ---------------------------------------------------------------------------
 // struct encoders never look at field names (C03: renaming a field cannot change the encoding)
